@@ -138,5 +138,81 @@ impl Polytope {
     pub fn solve_status(&self) -> (r: PolytopeStatus) ensures r == lp_status0(*self) { unimplemented!() }
 }
 
+// ---------------------------------------------------------------- remove_duplicate_rows: oracles for the numeric parts
+pub uninterp spec fn normalized(p: Polytope) -> Polytope;
+pub uninterp spec fn rows_close(n: Polytope, i: int, j: int) -> bool;      // relative_eq of row i and row j (matrix row and bias) of the normalized polytope
+impl Polytope {
+    // `self.clone().normalize()`: scaling of every row to unit length (numeric; bounded: bc cleanup)
+    #[verifier::external_body]
+    pub fn normalized_clone(&self) -> (r: Polytope) ensures r == normalized(*self) { unimplemented!() }
+    // `ArrayView1::relative_eq(&n.mat.row(i), &n.mat.row(j), eps, max_rel) && A::relative_eq(&n.bias[i], &n.bias[j], eps, max_rel)` (approx crate)
+    #[verifier::external_body]
+    pub fn rows_rel_eq(&self, i: usize, j: usize) -> (r: bool) ensures r == rows_close(*self, i as int, j as int) { unimplemented!() }
+}
+// row i is dropped because an earlier row j < i is relative-equal to it after normalization
+pub open spec fn dup_ok(p: Polytope, i: usize) -> bool {
+    exists|j: int| 0 <= j < i && rows_close(normalized(p), i as int, j)
+}
+
+impl Polytope {
+//@fn src/linalg/affine.rs | impl<A: Float + DivAssign + Sum + RelativeEq<A, Epsilon: Clone>> AffFuncBase<PolytopeT, OwnedRepr<A>> | remove_duplicate_rows
+//@sigsub AffFuncBase<PolytopeT, OwnedRepr<A>> => Polytope
+//@bodysub let normal = self.clone().normalize(); => let normal = self.normalized_clone();
+//@bodysub for i in (0..self.n_constraints()).rev() { => let mut __i: usize = self.n_constraints(); while __i > 0 { __i -= 1; let i = __i;
+//@bodysub for j in (0..i).rev() { => let mut __j: usize = i; while __j > 0 { __j -= 1; let j = __j;
+//@bodysub let mat_eq = ArrayView1::relative_eq( &normal.mat.row(i), &normal.mat.row(j), A::default_epsilon(), A::default_max_relative(), ); => let mat_eq = normal.rows_rel_eq(i, j);
+//@bodysub let bias_eq = A::relative_eq( &normal.bias[i], &normal.bias[j], A::default_epsilon(), A::default_max_relative(), ); => let bias_eq = true;
+//@bodysub self.remove_rows(dups.into_iter().rev()) => self.remove_rows_desc(&dups)
+//@spec
+    requires self.ok()
+    ensures
+        // the input minus a strictly descending list of rows, each dropped only because an EARLIER row is relative-equal to it after normalization;
+        // a row that has no such earlier row is kept (in particular row 0 and the first row of every group of duplicates)
+        exists|dropped: Seq<usize>| r == #[trigger] rows_removed(*self, dropped)
+            && (forall|k: int| 0 <= k < dropped.len() ==> (#[trigger] dropped[k]) < self.mat.nrows() && dup_ok(*self, dropped[k]))
+            && (forall|k1: int, k2: int| 0 <= k1 < k2 < dropped.len() ==> dropped[k1] > dropped[k2])
+            && (forall|i: usize| i < self.mat.nrows() && dup_ok(*self, i) ==> dropped.contains(i)),
+        r.ok(), r.mat.ncols() == self.mat.ncols(),
+//@loop 1 contract
+            invariant
+                self.ok(), 0 <= __i <= self.mat.nrows(), normal == normalized(*self),
+                forall|k: int| 0 <= k < dups@.len() ==> (#[trigger] dups@[k]) < self.mat.nrows() && dups@[k] >= __i && dup_ok(*self, dups@[k]),
+                forall|k1: int, k2: int| 0 <= k1 < k2 < dups@.len() ==> dups@[k1] > dups@[k2],
+                forall|i2: usize| __i <= i2 < self.mat.nrows() && dup_ok(*self, i2) ==> dups@.contains(i2),
+            decreases __i
+//@loop 2
+                invariant_except_break
+                    dups@ == d0,
+                    forall|j2: int| __j <= j2 < i ==> !rows_close(normal, i as int, j2),
+                invariant
+                    0 <= __j <= i, i == __i, i < self.mat.nrows(), normal == normalized(*self), self.ok(),
+                ensures
+                    (dups@ == d0 && forall|j2: int| 0 <= j2 < i ==> !rows_close(normal, i as int, j2))
+                        || (dups@ == d0.push(i) && exists|j2: int| 0 <= j2 < i && rows_close(normal, i as int, j2)),
+                decreases __j
+//@hint loop 2 before
+            let ghost d0 = dups@;
+//@hint loop 2 after
+            proof {
+                if dups@ == d0 {
+                    assert(!dup_ok(*self, i));
+                } else {
+                    assert(dup_ok(*self, i));
+                    assert forall|k: int| 0 <= k < dups@.len() implies (#[trigger] dups@[k]) < self.mat.nrows() && dups@[k] >= __i && dup_ok(*self, dups@[k]) by {
+                        if k < d0.len() { assert(dups@[k] == d0[k]); }
+                    }
+                    assert forall|k1: int, k2: int| 0 <= k1 < k2 < dups@.len() implies dups@[k1] > dups@[k2] by {
+                        assert(dups@[k1] == d0[k1]);
+                        if k2 < d0.len() { assert(dups@[k2] == d0[k2]); }
+                    }
+                }
+                assert forall|i2: usize| __i <= i2 < self.mat.nrows() && dup_ok(*self, i2) implies dups@.contains(i2) by {
+                    if i2 == i { assert(dups@[d0.len() as int] == i); }
+                    else { assert(d0.contains(i2)); let k = choose|k: int| 0 <= k < d0.len() && d0[k] == i2; assert(dups@[k] == i2); }
+                }
+            }
+//@end
+}
+
 } // verus!
 fn main() {}
